@@ -17,8 +17,12 @@ Part == Env("GEN_PART", "S")
 
 P1(s) == PrintS(<<Str(s)>>)
 Base == << Let("A", I(1)), Let("T", Call("tab", <<I(2), I(1)>>)), Let("U", Call("tup", <<I(1), Str("a")>>)), Let("$S", I(5)),
-           Func("F", <<"X">>, <<Return(Bin("+", V("X"), V("X")))>>), Func("G", <<>>, <<Return(I(7))>>) >>
-Muts == << <<Let("A", Bin("+", V("A"), I(1))), Do(Mem(V("T"), "concat", <<V("A")>>)), PrintS(<<UCall("F", <<V("A")>>), UCall("G", <<>>)>>)>>,
+           \* a body of several statements that prints (the call belongs to the context that makes it), overloads by arity,
+           \* a function declared after the overloads
+           Func("F", <<"X">>, <<Let("Y", Bin("+", V("X"), V("X"))), PutS(<<Str("f")>>), Return(V("Y"))>>), Func("G", <<>>, <<Return(I(7))>>),
+           Func("G", <<"X">>, <<Let("Z", Bin("*", V("X"), I(3))), Return(V("Z"))>>), Func("G", <<"X", "Y">>, <<Return(Bin("-", V("X"), V("Y")))>>),
+           Func("H", <<>>, <<PutS(<<Str("h")>>), Return(I(9))>>) >>
+Muts == << <<Let("A", Bin("+", V("A"), I(1))), Do(Mem(V("T"), "concat", <<V("A")>>)), PrintS(<<UCall("F", <<V("A")>>), UCall("G", <<>>), UCall("G", <<I(2)>>), UCall("G", <<I(9), I(4)>>), UCall("H", <<>>)>>)>>,
            <<Func("F", <<"X">>, <<Return(Bin("*", V("X"), I(100)))>>), PrintS(<<UCall("F", <<I(2)>>)>>)>>,
            <<Do(SetAt(V("U"), 2, Str("z"))), Let("T", Call("tab", <<I(1), I(50)>>)), Let("NEW", I(9)), Func("G", <<>>, <<Return(I(8))>>)>>,
            <<Let("B", Bin("/", I(1), I(0)))>>,
@@ -77,8 +81,10 @@ TScenario(m, n, reps) ==
              \o <<[op |-> "threads", ctx |-> 0, n |-> n, reps |-> reps, ast |-> TProgs[m], text |-> Render(TProgs[m])]>>]
 
 VARIABLE p
+CScenario(n, reps) == [prop |-> "C14", key |-> "TC", steps |-> <<[op |-> "capithreads", ctx |-> 0, n |-> n, reps |-> reps]>>]
 Init == IF Part = "S" THEN p \in {[k |-> "S", h |-> h] : h \in {x \in Seqs(H) : Valid(x, {0, 1, 2})}}
         ELSE p \in {[k |-> "T", m |-> m, n |-> n, r |-> r] : m \in DOMAIN TProgs, n \in {2, 4, 8}, r \in {1, 25}}
+                 \cup {[k |-> "TC", m |-> 0, n |-> n, r |-> r] : n \in {2, 4, 8}, r \in {50, 2000}}
 Next == UNCHANGED p
-Emit == PrintT("@@S " \o ToJson(IF p.k = "S" THEN SScenario(p.h) ELSE TScenario(p.m, p.n, p.r)))
+Emit == PrintT("@@S " \o ToJson(IF p.k = "S" THEN SScenario(p.h) ELSE IF p.k = "TC" THEN CScenario(p.n, p.r) ELSE TScenario(p.m, p.n, p.r)))
 =============================================================================
